@@ -35,6 +35,7 @@ RULE = (
     ' Directed histories: one function behind two cached nodes that differ in their emit name only (two graphs, one cache); list/tuple/set/frozenset/dict arguments with equal members; a size-limited backend where the oldest entry is read just before an insertion (documented LRU).'
     ' Also: pairs of DIFFERENT definitions behind otherwise identical cached nodes (referenced global / attribute / method names, parameter roles, constants, defaults, bodies of inner lambdas / functions / comprehensions, operators, closure values), with and without retrievable source, both orders, memory and disk.'
     ' Directed: every small observer loop (limit 2-4 x threshold x listing order) with everything cached, three runs on one backend per runner.'
+    " Corruption class 'entry transplant': both rows of another genuine entry copied over a key (consistent with each other, never written for that key) behaves as a miss."
 )
 ASSUMPTIONS = [
     "diskcache/sqlite3/pickle/hmac behave as documented; how hypergraph uses them is in scope",
@@ -956,7 +957,7 @@ def container_arguments(ctx, i):
     ctx.case({"containers": repr(members), "b": type(backend).__name__}, True)
 
 
-FAULTS = ["payload-bitflip", "payload-truncate-0", "payload-truncate-half", "payload-swapped", "payload-non-bytes", "payload-type-str", "payload-type-int", "payload-type-float", "payload-type-none", "payload-type-bytearray", "sig-bitflip", "sig-type", "sig-type-int", "sig-type-bytes", "sig-type-none", "sig-empty", "sig-non-ascii", "sig-short", "sig-missing", "payload-missing", "torn-fresh", "torn-overwrite"]
+FAULTS = ["payload-bitflip", "payload-truncate-0", "payload-truncate-half", "payload-swapped", "entry-transplant", "payload-non-bytes", "payload-type-str", "payload-type-int", "payload-type-float", "payload-type-none", "payload-type-bytearray", "sig-bitflip", "sig-type", "sig-type-int", "sig-type-bytes", "sig-type-none", "sig-empty", "sig-non-ascii", "sig-short", "sig-missing", "payload-missing", "torn-fresh", "torn-overwrite"]
 
 
 def _evil_hook():
@@ -1006,6 +1007,13 @@ def disk_faults(ctx, dcache, spy, built, spec, pool, cacheable, case):
                 if other is None:
                     continue
                 dc.set(key, dc.get(other))
+            elif fault == "entry-transplant":
+                # BOTH rows of another genuine entry copied over this key (a botched restore, a replay): consistent with
+                # each other, but never written for this key
+                if other is None or not isinstance(dc.get(other), bytes) or not isinstance(dc.get(other + suffix), str):
+                    continue
+                dc.set(key, dc.get(other))
+                dc.set(key + suffix, dc.get(other + suffix))
             elif fault == "payload-non-bytes":
                 dc.set(key, Evil())
             elif fault.startswith("payload-type-"):
